@@ -825,3 +825,12 @@ v("c07-stream-decided-by-iterator-class", "C07", "STREAM-PREDICATE", E + "execut
 v("c07-exception-payload-raised", "C07", "PER-EVENT-PURE", E + "execute.py",
   "    return cast(\"AwaitableOrValue[ExecutionResult]\", executor.execute_operation(False))\n",
   "    if isinstance(executor.root_value, Exception):\n        raise executor.root_value\n    return cast(\"AwaitableOrValue[ExecutionResult]\", executor.execute_operation(False))\n")
+
+# -- round 5: C10 ------------------------------------------------------------------------------------------
+LOC = "src/graphql/language/"
+v("c10-excerpt-rstripped", "C10", "EXCERPT-VERBATIM", LOC + "print_location.py",
+  "        prefix.rjust(pad_len) + (\" \" + line if line else \"\")\n", "        (prefix.rjust(pad_len) + \" \" + (line or \"\")).rstrip()\n")
+v("c10-lexer-starts-at-location-offset", "C10", "OFFSET-OWNERS", LOC + "lexer.py",
+  "        self.line, self.line_start = 1, 0\n", "        self.line, self.line_start = source.location_offset.line, 1 - source.location_offset.column\n")
+v("c10-formatted-location-memoised", "C10", "CACHED-MUTABLE-RESULT", LOC + "location.py",
+  "class SourceLocation(NamedTuple):", "from functools import lru_cache\n\n\n@lru_cache(maxsize=4096)\ndef _formatted(line: int, column: int) -> FormattedSourceLocation:\n    return {\"line\": line, \"column\": column}\n\n\nclass SourceLocation(NamedTuple):")
